@@ -50,6 +50,11 @@ impl FromFuzz for Vec<i32> {
         Some(b.chunks(4).take(16).map(|c| i32::from_fuzz(c).unwrap()).collect())
     }
 }
+impl FromFuzz for crate::types::CowF {
+    fn from_fuzz(b: &[u8]) -> Option<Self> {
+        Some(std::borrow::Cow::Owned(b.chunks(4).take(16).map(|c| f32::from_fuzz(c).unwrap()).collect()))
+    }
+}
 impl FromFuzz for Point {
     fn from_fuzz(b: &[u8]) -> Option<Self> {
         Some(Point { x: i16::from_fuzz(b).unwrap(), y: i16::from_fuzz(b.get(2..).unwrap_or(&[])).unwrap() })
